@@ -4,6 +4,7 @@ import (
 	"encoding/base64"
 	"errors"
 	"fmt"
+	"sort"
 	"strings"
 	"text/template"
 
@@ -249,7 +250,35 @@ func SprigFuncs(t *template.Template) template.FuncMap {
 
 	allowedFuncs["toYAML"] = toYAML
 	allowedFuncs["fromYAML"] = fromYAML
+
+	// sprig's keys and values return their result in Go map iteration order,
+	// which changes from call to call and would make rendering non-deterministic.
+	allowedFuncs["keys"] = sortedKeys
+	allowedFuncs["values"] = valuesSortedByKey
 	return allowedFuncs
+}
+
+// sortedKeys returns the keys of every given dict, each dict's keys in ascending order.
+func sortedKeys(dicts ...map[string]any) []string {
+	out := []string{}
+	for _, dict := range dicts {
+		keys := make([]string, 0, len(dict))
+		for key := range dict {
+			keys = append(keys, key)
+		}
+		sort.Strings(keys)
+		out = append(out, keys...)
+	}
+	return out
+}
+
+// valuesSortedByKey returns the values of dict ordered by their key.
+func valuesSortedByKey(dict map[string]any) []any {
+	out := []any{}
+	for _, key := range sortedKeys(dict) {
+		out = append(out, dict[key])
+	}
+	return out
 }
 
 func base64decodeMap(data map[string]any) (
